@@ -47,8 +47,8 @@ type stringerVal struct{ s string }
 func (s stringerVal) String() string { return s.s }
 
 type serverWorld struct {
-	serveYields int // scheduling points before Serve is called
-	cancelOf map[string]context.CancelFunc // per request prefix (direct callers with ReqSc.Ctx == 2)
+	serveYields      int                           // scheduling points before Serve is called
+	cancelOf         map[string]context.CancelFunc // per request prefix (direct callers with ReqSc.Ctx == 2)
 	x                *X
 	s                *simrt.Sim
 	exec             *kmipserver.BatchExecutor
@@ -267,7 +267,7 @@ type ItemSc struct {
 type ReqSc struct {
 	Version    int      `json:"version"`               // index into allVersions; 5 = unsupported 2.0; 6 = 0.9
 	Option     int      `json:"option,omitempty"`      // 0 unset 1 continue 2 stop 3 undo
-	CountDelta int      `json:"count_delta,omitempty"` // header BatchCount = len(items) + delta; -1000: -1, -2000: MinInt32, 1000: MaxInt32
+	CountDelta int      `json:"count_delta,omitempty"` // header BatchCount = len(items) + delta; -1000: -1, -2000: MinInt32, 1000: MaxInt32 (a tree that sizes a buffer by it dies of an out-of-memory fatal error: reported as <id>.process-killed)
 	Items      []ItemSc `json:"items"`
 	// Hdr: optional header elements none of which may change what the properties state
 	// bits 0-1 BatchOrderOption (0 absent, 1 true, 2 false) | 4 AsynchronousIndicator=false | 8 MaximumResponseSize
